@@ -1,6 +1,7 @@
 package main
 
 import (
+	"bytes"
 	"errors"
 	"fmt"
 	"github.com/bluenviron/gomavlib/v3/pkg/dialects/minimal"
@@ -750,5 +751,80 @@ func genC14(o *hx.Out, tier string) {
 			ln.Close()
 		}
 		o.Add("refused input on a healthy tcp client channel", verdict, "expect", "ok", "healthy-link-refused-input")
+	}
+
+	// (8) UDP server endpoint: every peer gets a channel of its own, whatever its first datagram looks
+	// like: frames, junk followed by a frame, a sender that joined in the middle of its stream (none of
+	// its datagrams starts on a frame boundary), a junk byte before every frame; at least three frames
+	// of each peer are delivered on that peer's channel
+	{
+		addr := fmt.Sprintf("127.0.0.1:%d", 29500+int(hx.Seed()%100)*5)
+		node, err := gomavlib.NewNode(gomavlib.NodeConf{Endpoints: []gomavlib.EndpointConf{gomavlib.EndpointUDPServer{Address: addr}},
+			Dialect: d, OutVersion: gomavlib.V2, OutSystemID: 10, HeartbeatDisable: true})
+		verdict := "ok"
+		if err != nil {
+			verdict = "NODE-FAILED " + err.Error()
+		} else {
+			col := scn.NewCollector(node, 0, false)
+			// what each peer sends, datagram by datagram
+			stream := bytes.Repeat(frameB, 6)[1:] // a sender joined in the middle of its stream:
+			var midstream [][]byte                // no datagram of it starts on a frame boundary
+			for len(stream) > 0 {
+				n := len(frameB)
+				if n > len(stream) {
+					n = len(stream)
+				}
+				midstream = append(midstream, stream[:n])
+				stream = stream[n:]
+			}
+			junked := [][]byte{} // every datagram has a junk byte before its frame
+			for k := 0; k < 4; k++ {
+				junked = append(junked, append([]byte{0x01}, frameB...))
+			}
+			firsts := [][][]byte{
+				{frameB, frameB, frameB, frameB},
+				append([][]byte{append([]byte{0x01, 0x02, 0x03}, frameB...)}, frameB, frameB, frameB),
+				midstream,
+				junked,
+			}
+			var peers []net.Conn
+			for _, dgs := range firsts {
+				pc, err := net.Dial("udp4", addr)
+				if err != nil {
+					verdict = "DIAL-FAILED"
+					break
+				}
+				peers = append(peers, pc)
+				for _, dg := range dgs {
+					pc.Write(dg) //nolint:errcheck
+					time.Sleep(10 * time.Millisecond)
+				}
+			}
+			if verdict == "ok" {
+				ok := col.Wait(func() bool {
+					if len(col.Channels()) < len(firsts) {
+						return false
+					}
+					for _, ch := range col.Channels() {
+						if countFrames(col.Events(ch)) < 3 {
+							return false
+						}
+					}
+					return true
+				})
+				if !ok {
+					var per []string
+					for _, ch := range col.Channels() {
+						per = append(per, strconv.Itoa(countFrames(col.Events(ch))))
+					}
+					verdict = fmt.Sprintf("PEERS-WITHOUT-A-CHANNEL-OR-FRAMES %d channels for %d peers, frames per channel [%s]", len(col.Channels()), len(firsts), strings.Join(per, " "))
+				}
+			}
+			for _, pc := range peers {
+				pc.Close()
+			}
+			scn.CloseWithin(node, 10*time.Second)
+		}
+		o.Add("udp server: a channel for every peer whatever its first datagram", verdict, "expect", "ok", "udp-server-first-datagrams")
 	}
 }
